@@ -95,9 +95,21 @@ func (b *gb) emit(e *gexpr) {
 	case "nil":
 		fm.call("AddNil")
 	case "opq":
-		n := fm.m.opaqueChild(true, false)
-		fm.m.opaque[n].consumes = !e.Null
-		fm.it.invoke(nil, fm.m.method("PushFront", fm.tree), []Value{n})
+		// an opaque operand is put on the operand stack by the builder itself (as a character)
+		// and then turned into the opaque node, wherever the builder keeps its operands
+		tmpl := fm.m.opaqueChild(true, false)
+		info := fm.m.opaque[tmpl]
+		info.consumes = !e.Null
+		delete(fm.m.opaque, tmpl)
+		fm.call("AddCharacter", "opaque")
+		ops := fm.operands()
+		if len(ops) == 0 {
+			panic(undecided{"the builder's operand stack was not found"})
+		}
+		n := ops[0]
+		n.field("Type").v = tmpl.field("Type").v
+		n.field("string").v = tmpl.field("string").v
+		fm.m.opaque[n] = info
 	}
 }
 
